@@ -340,6 +340,25 @@ def entry_point_logic(d):
     out["migrate_rule"] = "letmigrate=ifmigrate_not_overridden&&is_migrate{self.emit_default_entry_point(MsgType::Migrate)}else{quote!{}}" in b \
         and "letmigrate_not_overridden=override_entry_points.get_entry_point(MsgType::Migrate).is_none();" in b
     out["reply_rule"] = "letreply_ep=override_entry_points.get_entry_point(MsgType::Reply).map(|_|quote!{}).unwrap_or_else(||{ifreply.is_some(){self.emit_default_entry_point(MsgType::Reply)}else{quote!{}}});" in b
+    fn2 = d.fn("entry_points.rs", "EntryPoints", "emit_default_entry_point")
+    if fn2 is not None:
+        arms = [(a["pats"], a["guard"], a["body"]) for m in fn2["matches"] if m["scrutinee"] == "msg_ty" for a in m["arms"]]
+        want = [
+            (["MsgType::Reply"], None, "quote!{msg:#sylvia::cw_std::Reply}"),
+            (["_"], None, "quote!{msg:<#contractas#sylvia::types::ContractApi>::#associated_name}"),
+            (["MsgType::Reply"], "sv_features.replies", "quote!{letcontract=#contract_turbofish::new();sv::dispatch_reply(deps,env,msg,contract).map_err(Into::into)}"),
+            (["MsgType::Reply"], None, "quote!{#contract_turbofish::new().#reply((deps,env).into(),msg).map_err(Into::into)}"),
+            (["_"], None, "quote!{msg.dispatch(&#contract_turbofish::new(),(#values)).map_err(Into::into)}"),
+        ]
+        if arms != want:
+            d.problems.append("EntryPoints::emit_default_entry_point: message/dispatch templates changed: %s" % [a for a in arms if a not in want][:2])
+        b2 = fn2["body"]
+        for frag in ("letresult=msg_ty.emit_result_type(&custom_msg,error);", "letparams=msg_ty.emit_ctx_params(&custom_query);",
+                     "letvalues=msg_ty.emit_ctx_values();", "letep_name=msg_ty.emit_ep_name();",
+                     "letassociated_name=msg_ty.as_accessor_wrapper_name();",
+                     "pubfn#ep_name(#params,#msg)->#result{#dispatch}"):
+            if frag not in b2:
+                d.problems.append("EntryPoints::emit_default_entry_point: expected fragment missing: " + frag)
     for k in ("default_filtered_by_override", "migrate_rule", "reply_rule"):
         if not out[k]:
             d.problems.append("EntryPoints::emit: %s no longer has the recognised form" % k)
